@@ -5,6 +5,8 @@ import (
 	"fmt"
 	"strings"
 
+	"k8s.io/apimachinery/pkg/api/errors"
+	"k8s.io/apimachinery/pkg/api/meta"
 	"k8s.io/apimachinery/pkg/apis/meta/v1/unstructured"
 	"k8s.io/apimachinery/pkg/runtime/schema"
 	"k8s.io/apimachinery/pkg/types"
@@ -17,7 +19,10 @@ const (
 )
 
 func DisableHPA(cli client.Client, object client.Object) error {
-	hpa := findHPAForWorkload(cli, object)
+	hpa, err := lookupHPAForWorkload(cli, object)
+	if err != nil {
+		return err
+	}
 	if hpa == nil {
 		return nil
 	}
@@ -37,7 +42,10 @@ func DisableHPA(cli client.Client, object client.Object) error {
 }
 
 func RestoreHPA(cli client.Client, object client.Object) error {
-	hpa := findHPAForWorkload(cli, object)
+	hpa, err := lookupHPAForWorkload(cli, object)
+	if err != nil {
+		return err
+	}
 	if hpa == nil {
 		return nil
 	}
@@ -57,20 +65,31 @@ func RestoreHPA(cli client.Client, object client.Object) error {
 }
 
 func findHPAForWorkload(cli client.Client, object client.Object) *unstructured.Unstructured {
-	hpa := findHPA(cli, object, "v2")
-	if hpa != nil {
-		return hpa
-	}
-	return findHPA(cli, object, "v1")
+	hpa, _ := lookupHPAForWorkload(cli, object)
+	return hpa
 }
 
-func findHPA(cli client.Client, object client.Object, version string) *unstructured.Unstructured {
+// lookupHPAForWorkload returns the HPA that targets the workload, nil if there is none. A failed list is an error, not
+// "no HPA": otherwise one transient API error leaves the HPA enabled during the release or parked for ever after it.
+func lookupHPAForWorkload(cli client.Client, object client.Object) (*unstructured.Unstructured, error) {
+	hpa, err := lookupHPA(cli, object, "v2")
+	if err != nil || hpa != nil {
+		return hpa, err
+	}
+	return lookupHPA(cli, object, "v1")
+}
+
+func lookupHPA(cli client.Client, object client.Object, version string) (*unstructured.Unstructured, error) {
 	unstructuredList := &unstructured.UnstructuredList{}
 	hpaGvk := schema.GroupVersionKind{Group: "autoscaling", Kind: "HorizontalPodAutoscaler", Version: version}
 	unstructuredList.SetGroupVersionKind(hpaGvk)
 	if err := cli.List(context.TODO(), unstructuredList, &client.ListOptions{Namespace: object.GetNamespace()}); err != nil {
 		klog.Warningf("Get HPA for workload %v failed, because %s", klog.KObj(object), err.Error())
-		return nil
+		// a cluster that does not serve this autoscaling version has no such HPAs
+		if meta.IsNoMatchError(err) || errors.IsNotFound(err) {
+			return nil, nil
+		}
+		return nil, err
 	}
 	klog.Infof("Get %d HPA with %s in namespace %s in total", len(unstructuredList.Items), version, object.GetNamespace())
 	for _, item := range unstructuredList.Items {
@@ -83,11 +102,11 @@ func findHPA(cli client.Client, object client.Object, version string) *unstructu
 		if version == object.GetObjectKind().GroupVersionKind().GroupVersion().String() &&
 			kind == object.GetObjectKind().GroupVersionKind().Kind &&
 			removeSuffix(name) == object.GetName() {
-			return &item
+			return &item, nil
 		}
 	}
 	klog.Infof("No HPA found for workload %v", klog.KObj(object))
-	return nil
+	return nil, nil
 }
 
 func addSuffix(HPARefName string) string {
